@@ -262,6 +262,15 @@ def make_middleware(i, spec, is_async):
             return pjrpc.Response(id=r.id, result=[r.result])
         return r
 
+    class _ByKind:
+        """a callable object that compares (and hashes) equal to another middleware of the same kind: two equal middlewares
+        declared at two positions are still two middlewares"""
+        def __eq__(self, other):
+            return getattr(other, '_kind_key', None) == self._kind_key
+
+        def __hash__(self):
+            return hash(self._kind_key)
+
     if is_async:
         async def mw(request, context, handler):
             enter(request, context)
@@ -280,7 +289,9 @@ def make_middleware(i, spec, is_async):
                 r = transform_response(handler(transform_request(request), context))
             leave()
             return r
-    return mw
+    obj = type('Middleware', (_ByKind,), {'__call__': lambda self, request, context, handler: mw(request, context, handler)})()
+    obj._kind_key = json.dumps(spec, sort_keys=True)
+    return obj
 
 
 def make_handler(key, i, spec, is_async):
